@@ -40,6 +40,9 @@ CHECKS = {
  "C18": ("exploration", "runtime monitor: reference model of the slog.Handler contract (groups, inline groups, empty attrs/groups, LogValuers, pending WithGroup names) compared with the decoded JSON entry per handler of a derivation tree; threshold model for Enabled / handled-iff-enabled",
          "N seeded handler derivation trees (WithGroup incl. empty names, WithAttrs) and records with attribute trees mixing typed kinds, named/inline/empty groups, empty attrs and LogValuers, at slog levels -20..20, driven through Handle directly and through slog.Logger; every emitted entry must decode to the contract's tree for that handler's own path (order, nesting, typed values), Enabled and delivery must follow the core's threshold under the four-threshold level map, and handlers are re-used in random order to expose aliasing between parent and siblings.",
          "Groups that have attributes all of which are ignorable ('effectively empty') are a recorded don't-care zone: such cases are generated and counted but their tree is not judged. slog.NewJSONHandler is deliberately not the oracle (it emits invalid JSON in that zone on go1.23).", "3/C18"),
+ "C15": ("exploration", "runtime monitor: the Go runtime's own call stack, captured on the same source line as every logging call, is the ground truth for caller and stack annotations",
+         "Every logging method of *zap.Logger and *zap.SugaredLogger (list checked by reflection; a method without a row exits 3), the std-log bridge (NewStdLog, NewStdLogAt, RedirectStdLog(At) incl. package-level log functions) and the slog handler are called through random Sugar/Desugar/With/WithLazy/Named/WithOptions chains, 0-8 wrapper frames with AddCallerSkip(k), call-stack depths on both sides of the pooled 64-frame capacity, every stack-trace threshold and caller on/off: caller must equal runtime frame k of the call site, the stack must be the complete runtime chain from that frame, attached exactly at the configured levels.",
+         "Trailing runtime.* frames of the stack are a don't-care. Open known finding D16 (std-log paths through log.(*Logger).Output).", "3/C15"),
 }
 NOT_YET = {}
 props = [json.loads(l) for l in open(os.path.join(V, "properties.jsonl"))]
